@@ -96,8 +96,15 @@ def faultReply (b : Backend) (kind : String) (nice : Reply) (g : Nat) : Reply :=
   | "rej_word" => { parses := false }
   | "rej_case" => { parses := false }
   | "rej_error_nomsg" => { parses := false }
-  -- NSX: status 200 with a JSON error document (used on requests whose body the program does not read)
+  -- NSX: status 200 with a JSON error document (fix cb3c960: rejected where a list is read; the
+  -- body of the replies to log-in and change requests is not read)
   | "json_error_200" => { parses := false }
+  -- NSX: status 200, valid JSON of another top-level type / `results` of another type: decoding fails
+  | "wrong_type" => { parses := false }
+  | "results_wrong_type" => { parses := false }
+  -- NSX: status 200, a well-formed object that lacks `results`: decodes, is read as an empty list
+  -- (F-C09d): everything is as in the conforming reply, only it is not the device's list
+  | "no_results" => { nice with flags := nice.flags.erase .cfgGenuine }
   -- NSX: any 4xx / 5xx with a JSON error body
   | "rej_4xx" => { status200 := false }
   | "truncated" =>
@@ -152,6 +159,10 @@ def mkDev (b : Backend) (sh : Shape) (pos : Option Nat) (kind : String) : Dev :=
   | none => nice
   | some p =>
     if gc == p then faultReply b kind nice gc
+    else if gc > p && b == .nsx && kind == "no_results" && l == "groups" && (ls.getD (p - 1) "") != "session create" then
+      -- the genuineness mark on the LAST list reply stands for the whole retrieved configuration
+      -- (that is where `setPlan` reads it): an earlier list that was not the device's spoils it
+      { nice with flags := nice.flags.erase .cfgGenuine }
     else if gc > p && !http then
       (if kind == "silence" || kind == "truncated" || kind == "stall_partial" then { arr := .silent }
        else if kind == "close" then { arr := .closed } else nice)
